@@ -488,7 +488,7 @@ type c07PadCase struct {
 }
 
 var c07Pad = newPart("C07", "padding-inside",
-	"complete: n = 1..704 (n mod 5 != 0) x the canonical padded base32 of an n-byte pattern followed by each of five valid tails (padded, unpadded, one quantum, 40 characters, 300 characters) x upper / lower case x with / without leading white space; oracle: padding in the middle must be rejected by DecodeSecret and GenerateHOTP; every case distinct and non-trivial",
+	"complete: n = 1..704 (n mod 5 != 0) x the canonical padded base32 of an n-byte pattern followed by each of five valid tails (padded, unpadded, one quantum, 40 characters, 300 characters) x upper / lower case x with / without leading white space; for n <= 64 and every sixteenth n also with a line break (LF, CR, CRLF, LFCR) between the padding and the tail, and with one-character tails inside and outside the alphabet after a line break; oracle: padding in the middle must be rejected by DecodeSecret and GenerateHOTP; every case distinct and non-trivial",
 	func(c c07PadCase) verdict {
 		key := make([]byte, c.N)
 		for i := range key {
@@ -511,6 +511,11 @@ var c07Pad = newPart("C07", "padding-inside",
 func TestC07_PaddingInside(t *testing.T) {
 	defer c07Pad.rec().Flush()
 	tails := []string{"AAAAAAAA", "ME======", "MZXW6YQ", strings.Repeat("GEZDGNBV", 5), strings.Repeat("MFRGGZDF", 38)[:300]}
+	// the same with a line break (LF, CR, CRLF) between the padding and what follows — a decoder that drops line breaks at a
+	// different moment than it computes the padding lets the tail through (D15) — and with a one-character tail, inside or
+	// outside the alphabet
+	breaks := []string{"\n", "\r", "\r\n", "\n\r"}
+	short := []string{"0", "A", "2", "=", "1A", "MZXW6YQ"}
 	i := 0
 	for n := 1; n <= 704; n++ {
 		if n%5 == 0 {
@@ -522,6 +527,23 @@ func TestC07_PaddingInside(t *testing.T) {
 				continue
 			}
 			c07Pad.each(t, c07PadCase{N: n, Tail: tail, Lower: (n+ti)%2 == 1, Lead: []string{"", " ", "\n"}[(n+ti)%3]})
+			if n <= 64 || n%16 == 1 {
+				c07Pad.each(t, c07PadCase{N: n, Tail: breaks[(n+ti)%4] + tail, Lower: (n+ti)%2 == 0, Lead: []string{"", " ", "\n"}[(n+ti)%3]})
+			}
+		}
+		if n <= 64 {
+			for bi, br := range breaks {
+				for si, sh := range short {
+					if sh == "=" && (len(ref.B32Pad(make([]byte, n)))+1)%8 != 1 {
+						// one more '=' may complete another admissible padding shape: not a case of padding in the middle
+						continue
+					}
+					i++
+					if ev.Mine(i) {
+						c07Pad.each(t, c07PadCase{N: n, Tail: br + sh, Lower: (bi+si)%2 == 1})
+					}
+				}
+			}
 		}
 	}
 	c07Pad.rec().Exhaustive()
